@@ -235,12 +235,13 @@ def stage_wsdl(p, full_matrix=True, restr=False):
         for d in diags:
             line = src[d["line"] - 1] if d.get("line") and d["line"] <= len(src) else ""
             mm = re.search(r"/\*SEND:(op\d+):([a-z-]+)\*/", line)
-            if mm and d.get("code") == "E0277" or (mm and "Send" in d.get("message", "")):
+            msg = d.get("message", "")
+            if mm and (d.get("code") == "E0277" or "Send" in msg or "Sync" in msg or "between threads" in msg):
                 because = ""
-                for c in d.get("children", []):
-                    m2 = re.search(r"`(Rc<[^`]*>|\*[^`]*|[^`]*dyn [^`]*)`", c)
+                for c in d.get("children", []) + [msg]:
+                    m2 = re.search(r"`((?:std::rc::)?Rc<[^`]*>|\*(?:const|mut) [^`]*|[^`]*dyn [^`]*|[^`]*RefCell[^`]*|[^`]*MutexGuard[^`]*|[^`]*Cell<[^`]*)`", c)
                     if m2:
-                        because = m2.group(1)
+                        because = re.sub(r"<.*", "", m2.group(1).replace("std::rc::", ""))
                         break
                 p.finding("not-send", what=mm.group(2), op=meta[mm.group(1)]["op"].name.xml if mm.group(1) in meta else "?",
                           message=d["message"][:200], because=because)
